@@ -9,6 +9,8 @@ import (
 	"verif/mon/internal/gen"
 )
 
+var _ = strings.ToLower
+
 // C06 — ExtractLicenses returns exactly the distinct terms of the expression.
 //
 // Oracle: the generator's tree is the ground truth for the leaf set; canon(t) is observed through
@@ -121,7 +123,23 @@ func judgeExtract(c *Ctx, tc *TreeCase) {
 	if s := c.Sat(text, got.List); !s.Clean() || !s.OK {
 		c.Violation(key+":self-satisfy", "C06.roundtrip", tc, "Satisfies(%q, ExtractLicenses(..)=%q) = %s, want true", text, got.List, s)
 	}
+	// the result belongs to the caller: modifying it must not change what a later call returns
+	if len(got.List) > 0 && tc.Index%4 == 0 {
+		orig := append([]string{}, got.List...)
+		for i := range got.List {
+			got.List[i] = strings.ToLower(got.List[i]) + "-modified-by-caller"
+		}
+		got.List = append(got.List[:0], "overwritten")
+		again := c.Ext(text)
+		c.Inc("result_aliasing_checks")
+		if !again.Clean() || !eqStrs(again.List, orig) {
+			c.Violation(key+":aliased-result", "C06.roundtrip", tc, "after the caller modified the slice returned by ExtractLicenses(%q), the same call returns %s instead of %q", text, again, orig)
+			return
+		}
+		got.List = orig
+	}
 	c.CountIf(len(got.List) >= 6, "results_with_6plus_terms")
+	c.CountIf(len(got.List) >= 65, "results_with_65plus_terms")
 	c.Max("result_len", int64(len(got.List)))
 }
 
@@ -156,6 +174,8 @@ func runC06(c *Ctx, phase string) {
 	c.Floor("trees_with_respelled_duplicate", 50)
 	c.Floor("results_with_6plus_terms", 20)
 	c.Floor("trees_with_17plus_distinct_terms", 200)
+	c.Floor("results_with_65plus_terms", 50)
+	c.Floor("result_aliasing_checks", 1000)
 	c.Floor("canon_checks", 5000)
 
 	// every listed id, every valid spelling, as a single term
@@ -176,7 +196,7 @@ func runC06(c *Ctx, phase string) {
 		if !c.Mine(i) {
 			continue
 		}
-		tc := genRandomTreeK(c, "C06", i, int64(c.Pick(512, 4096)), 40) // up to 40 distinct terms: no truth table is needed here
+		tc := genRandomTreeK(c, "C06", i, int64(c.Pick(512, 4096)), 150) // up to 40 distinct terms: no truth table is needed here
 		c.CountIf(len(tc.Terms) >= 17, "trees_with_17plus_distinct_terms")
 		// make re-spelled duplicates common: one time in three add a case variant of an existing license leaf
 		r := gen.NewRand(c.Seed, 0xC06, uint64(i))
